@@ -1,16 +1,150 @@
 /-
   C10 — every client command terminates, whatever happens to the connection.
-  Property theorems only; the transition system is GoImap/Model/ClientFault.lean, the property's
-  predicate GoImap/Spec/ClientFault.lean.
+  Property theorems only. The transition system (reader goroutine, caller, Close, failing writer)
+  is GoImap/Model/ClientFault.lean; the property's predicate GoImap/Spec/ClientFault.lean; the
+  definitions used below (`mu`, `Inv`, `PostFault`, `Contract`, `Drains`, `Reach`) and all helper
+  lemmas are in GoImap/Lemmas/ClientFault{Measure,Inv,Drain,Complete}.lean.
 
-  Status (phase 1): concrete theorems about the F13 / F13b transcripts and the basic bookkeeping
-  lemma of closeWithError. The general theorems (fault_drains, incomplete_is_error) follow below
-  once proved; until then they are validated by the oracle on every run only.
+  Proved (for the model of the repaired client, all transcripts, all cut points, all faults):
+    step_decreases        every step strictly decreases a natural-number measure (no infinite run)
+    inv_reachable         the invariant holds in every state of the experiment (initial state, steps
+                          of the system in any interleaving, injection of the fault)
+    postFault_inject      after the injection the connection has failed or Close was requested
+                          (write fault with a free encoder: after the failing write, postFault_fired)
+    stuck_is_terminal     after the fault, a state without an enabled step is the terminal state
+                          (deadlock freedom), given the caller's contract
+    fault_drains          hence every run from a reachable post-fault state that respects the contract
+                          is finite, can always be continued, and ends with every call returned, Close
+                          returned and the reader gone  (`Drains`)
+    incomplete_is_error   in every reachable state a command's result is success only if its tagged
+                          completion was fully received (Spec.fullyReceived), + wait_reports_result
+    lit_cut_drains, eager_auth_drains      concrete runs of the scheduler end in the terminal state
+  Counterexamples kept for the repaired defects (Legacy flags of the model):
+    legacy_lit_cut_counterexample   F13: read error inside a FETCH literal: reachable stuck state
+    legacy_tag_counterexample       F13b: success reported for a completion cut before its CRLF;
+                                    NewStartTLS stuck on upgradeDone
+  The caller's contract is the explicit hypothesis `Contract` (streaming commands are consumed, the
+  encoder is released); non-vacuity: contract_example.
+  Not proved here, validated by the oracle on every run only: that the class recorded for *each
+  phase* (not just Wait) equals the command's result — the model records `clsOf result` by
+  construction in cRes; the Go scheduler's fairness; everything below net.Conn.
 -/
 import GoImap.Model.ClientFault
 import GoImap.Spec.ClientFault
+import GoImap.Lemmas.ClientFaultMeasure
+import GoImap.Lemmas.ClientFaultInv
+import GoImap.Lemmas.ClientFaultDrain
+import GoImap.Lemmas.ClientFaultComplete
 namespace GoImap.C10
-open GoImap.ClientFault
+open GoImap.ClientFault GoImap.ClientFaultLemmas
+
+/-- every step of the system strictly decreases the measure `mu` (tokens left, phases left, where
+    the caller is blocked, queued literal, reader alive, done signal, granted continuation
+    requests, progress of Close and of the failing writer): there is no infinite run -/
+theorem step_decreases (s s' : St) (h : Step s s') : mu s' < mu s :=
+  ClientFaultLemmas.step_decreases s s' h
+
+/-- the invariant holds in every state of the experiment on the repaired client -/
+theorem inv_reachable (cfg : Config) (h1 : cfg.legacyLit = false) (h2 : cfg.legacyTag = false)
+    (s : St) (hr : Reach cfg s) : Inv s := inv_reach h1 h2 hr
+
+/-- a real fault (the connection is cut before the end of the transcript) leaves the connection
+    failed or Close requested; for the write fault this needs the encoder to be held or the
+    client handle to be missing (otherwise see `postFault_fired`) -/
+theorem postFault_inject (cfg : Config) (s : St) (hI : Inv s) (hk : cfg.k < totalLen cfg.items)
+    (hf : cfg.fault ≠ .none) (hw : cfg.fault = .werr → s.mutex = true ∨ hasStarttls cfg = true) :
+    PostFault (inject cfg s) := by
+  unfold inject
+  by_cases hcl : s.closedLocal = true
+  · have : (decide (cfg.k ≥ totalLen cfg.items) || s.closedLocal) = true := by simp [hcl]
+    rw [if_pos this]
+    exact Or.inl (by rw [(hI.closed hcl).2]; simp)
+  · have : ¬ (decide (cfg.k ≥ totalLen cfg.items) || s.closedLocal) = true := by
+      simp only [Bool.or_eq_true, decide_eq_true_eq, not_or]
+      exact ⟨by omega, hcl⟩
+    rw [if_neg this]
+    cases hfa : cfg.fault with
+    | none => exact absurd hfa hf
+    | eof => exact Or.inl (by simp)
+    | rerr => exact Or.inl (by simp)
+    | sclose => exact Or.inr rfl
+    | stimeout =>
+      simp only
+      split_ifs
+      · exact Or.inl (by simp)
+      · exact Or.inr rfl
+    | werr =>
+      simp only
+      rcases hw hfa with h | h
+      · split_ifs
+        · exact Or.inr rfl
+        · exact Or.inr rfl
+      · rw [if_pos h]; exact Or.inr rfl
+
+/-- the failing write itself (`closeWithError` from the writer's side) fails the connection -/
+theorem postFault_fired (s s' : St) (h : pFire s = some s') : PostFault s' := by
+  simp only [pFire] at h
+  split_ifs at h
+  simp only [Option.some.injEq] at h; subst h
+  exact Or.inl (by simp [closeConn])
+
+/-- deadlock freedom after the fault -/
+theorem stuck_is_terminal (s : St) (hI : Inv s) (hP : PostFault s) (hC : Contract s)
+    (hstuck : next rules s = none) : terminal s = true :=
+  ClientFaultLemmas.stuck_is_terminal hI hP hC hstuck
+
+/-- C10, liveness: from every reachable state in which the connection has failed (EOF, read error,
+    expired deadline, failed write) or the caller has called Close, every run in which the caller
+    honours the contract is finite, never gets stuck before the end, and ends in the terminal
+    state: every call of the caller has returned, Close has returned, the reader has exited. -/
+theorem fault_drains (cfg : Config) (h1 : cfg.legacyLit = false) (h2 : cfg.legacyTag = false)
+    (s : St) (hr : Reach cfg s) (hP : PostFault s) (hC : Contract s) : Drains s :=
+  drains_of_inv (mu s) s (Nat.le_refl _) (inv_reach h1 h2 hr) hP hC
+
+/-- the same for any state satisfying the invariant -/
+theorem fault_drains_inv (s : St) (hI : Inv s) (hP : PostFault s) (hC : Contract s) : Drains s :=
+  drains_of_inv (mu s) s (Nat.le_refl _) hI hP hC
+
+/-- C10, safety: in every reachable state of the experiment on the repaired client, a command
+    whose result is success has had its tagged completion fully received — contrapositive: a
+    command whose completion was not fully received does not report success -/
+theorem incomplete_is_error (cfg : Config) (h2 : cfg.legacyTag = false) (s : St) (hr : Reach cfg s)
+    (c : Nat) (x : Cmd) (hx : s.cmds[c]? = some x) (hres : x.result = some true) :
+    ClientFaultSpec.fullyReceived (cfg.items.map DriveC10.toResp) cfg.k c = true := by
+  have h := (reach_resOK hr).2 c x hx hres
+  rw [h2] at h
+  rcases h with h | h
+  · exact tagged_mem_fullyReceived h
+  · exact absurd h (tokenize_noEarly cfg.items cfg.k c true)
+
+/-- what `Wait` (and the final Wait of Close / Collect / Authenticate) reports is the command's
+    result: success is recorded only for a command whose result is success -/
+theorem wait_reports_result (s s' : St) (c : Nat) (hp : s.pos = .res c) (h : cRes s = some s')
+    (hok : s'.out = s.out ++ [Cls.ok]) : ∃ x, s.cmds[c]? = some x ∧ x.result = some true := by
+  simp only [cRes, hp] at h
+  split at h
+  · rename_i x hx
+    split at h
+    · rename_i ok hres
+      split_ifs at h with h1 h2
+      · simp only [Option.some.injEq] at h; subst h
+        simp at hok
+      · simp only [Option.some.injEq] at h; subst h
+        cases hpr : s.prog with
+        | nil => simp [record, closeConn, hpr] at hok
+        | cons a b => simp [record, closeConn, hpr] at hok
+      · simp only [Option.some.injEq] at h; subst h
+        cases hpr : s.prog with
+        | nil => simp [record, hpr] at hok
+        | cons a b =>
+          simp only [record, hpr, List.append_cancel_left_eq, List.cons.injEq, and_true] at hok
+          cases ok with
+          | true => exact ⟨x, hx, hres⟩
+          | false => simp [clsOf] at hok
+    · simp at h
+  · simp at h
+
+/-! ## concrete transcripts -/
 
 /-- greeting; `FETCH 1 BODY[]` answered with a 5-byte literal; the connection is cut after 2 bytes
     of the literal; the caller sits in `Collect` -/
@@ -19,17 +153,6 @@ def litCut (legacy : Bool) (f : Fault) : Config :=
     items := [.greet 37, .fetch 0 [.txt 32, .lit 5, .txt 3], .tagged 0 true 23 6]
     prog := [.greetWait, .issue 0, .collect 0]
     k := 37 + 32 + 2, fault := f, legacyLit := legacy }
-
-/-- after `closeWithError` no command is pending -/
-theorem failAll_no_pending (l : List Cmd) : ∀ x ∈ failAll l, pendingCmd x = false := by
-  intro x hx
-  simp only [failAll, List.mem_map] at hx
-  obtain ⟨y, _, rfl⟩ := hx
-  by_cases h : pendingCmd y = true
-  · rw [if_pos h]
-    simp [completeOne, pendingCmd]
-  · rw [if_neg h]
-    simpa using h
 
 /-- F13 (repaired): with a read error, a deadline or a Close inside the literal everything drains -/
 theorem lit_cut_drains :
@@ -45,5 +168,62 @@ theorem legacy_lit_cut_counterexample :
     (terminal (simulate (litCut true .rerr)) = false ∧ next rules (simulate (litCut true .rerr)) = none) ∧
     (simulate (litCut true .sclose)).reader = .litWait ∧ (simulate (litCut true .sclose)).closer = .waiting ∧
     terminal (simulate (litCut true .eof)) = true := by decide +kernel
+
+/-- greeting; NOOP; the tagged OK (22 bytes, "T1 OK " is 6) is cut after `got` of its bytes -/
+def tagCut (legacy : Bool) (kind : Kind) (ph : Phase) (got : Nat) : Config :=
+  { kinds := [kind]
+    items := [.greet 37, .tagged 0 true 22 6]
+    prog := [ph]
+    k := 37 + got, fault := .eof, legacyTag := legacy }
+
+/-- F13b (as shipped): `readResponseTagged` completed the command before the CRLF was read. A
+    connection cut after "T1 OK " or between CR and LF made Wait report success although the
+    completion was not fully received; NewStartTLS then waited for `upgradeDone` forever. The
+    repaired model reports an error / drains in all four cases. -/
+theorem legacy_tag_counterexample :
+    -- Wait reports success for an incomplete completion
+    (simulate (tagCut true .simple (.issue 0) 6)).cmds.map (·.result) = [some true] ∧
+    (simulate (tagCut true .simple (.issue 0) 21)).cmds.map (·.result) = [some true] ∧
+    ClientFaultSpec.fullyReceived ((tagCut true .simple (.issue 0) 21).items.map DriveC10.toResp)
+      (tagCut true .simple (.issue 0) 21).k 0 = false ∧
+    -- NewStartTLS is stuck
+    (simulate (tagCut true .starttls (.starttls 0) 21)).pos = .tls 0 ∧
+    terminal (simulate (tagCut true .starttls (.starttls 0) 21)) = false ∧
+    -- repaired
+    (simulate (tagCut false .simple (.issue 0) 6)).cmds.map (·.result) = [some false] ∧
+    (simulate (tagCut false .simple (.issue 0) 21)).cmds.map (·.result) = [some false] ∧
+    terminal (simulate (tagCut false .starttls (.starttls 0) 21)) = true := by decide +kernel
+
+/-- AUTHENTICATE completed by the server right after its challenge (the continuation request for
+    the SASL answer may be registered after the completion): every fault drains -/
+def eagerAuth (f : Fault) : Config :=
+  { kinds := [.auth]
+    items := [.greet 37, .cont 0 4, .tagged 0 true 49 6, .line 17]
+    prog := [.greetWait, .auth 0]
+    k := 37 + 4 + 49 + 5, fault := f }
+
+theorem eager_auth_drains :
+    terminal (simulate (eagerAuth .eof)) = true ∧ terminal (simulate (eagerAuth .rerr)) = true ∧
+    terminal (simulate (eagerAuth .sclose)) = true ∧ terminal (simulate (eagerAuth .stimeout)) = true ∧
+    terminal (simulate (eagerAuth .werr)) = true ∧
+    (simulate (eagerAuth .eof)).out = [.ret, .ok] := by decide +kernel
+
+/-- the hypotheses of `fault_drains` are satisfiable: the state right after a read error was
+    injected into the literal of `litCut` is reachable, post-fault and within the contract -/
+theorem contract_example :
+    let cfg := litCut false .rerr
+    let s := inject cfg (run rulesNoFinal (fuelFor cfg) (initial cfg))
+    Reach cfg s ∧ PostFault s ∧ Contract s ∧ terminal s = false := by
+  intro cfg s
+  have hfl : s.flight = some false := by decide +kernel
+  have hpos : s.pos = .lit 0 true := by decide +kernel
+  refine ⟨reach_injected cfg, Or.inl (by decide +kernel), ⟨?_, ?_⟩, by decide +kernel⟩
+  · intro _ h; rw [hfl] at h; cases h
+  · intro _ h; rw [hpos] at h; cases h
+
+/-- … and therefore it drains -/
+example : Drains (inject (litCut false .rerr)
+    (run rulesNoFinal (fuelFor (litCut false .rerr)) (initial (litCut false .rerr)))) :=
+  fault_drains (litCut false .rerr) rfl rfl _ contract_example.1 contract_example.2.1 contract_example.2.2.1
 
 end GoImap.C10
